@@ -215,25 +215,86 @@ def sym_paths(body, limit=4000, init_env=None, fi=None, inliner=None) -> List[Sy
     return out
 
 
-def _trivially_infeasible(sp) -> bool:
-    """Only comparisons between literal constants are decided (e.g. `None is not None` after substitution)."""
-    for node, truth in sp.conds:
-        if isinstance(node, ast.Compare) and len(node.ops) == 1 and isinstance(node.left, ast.Constant) \
-                and isinstance(node.comparators[0], ast.Constant):
-            a, b = node.left.value, node.comparators[0].value
-            op = node.ops[0]
-            if isinstance(op, ast.Is):
-                v = a is b
-            elif isinstance(op, ast.IsNot):
-                v = a is not b
-            elif isinstance(op, ast.Eq):
-                v = a == b
-            elif isinstance(op, ast.NotEq):
-                v = a != b
-            else:
+_PURE_FUNCS = {'len', 'isinstance', 'bool', 'str', 'int', 'float', 'list', 'tuple', 'set', 'frozenset', 'dict', 'sorted', 'any', 'all',
+               'min', 'max', 'getattr', 'hasattr', 'type', 'sum', 'abs', 'repr', 'range', 'enumerate', 'zip', 'reversed', 'callable'}
+_PURE_METHODS = {'get', 'join', 'startswith', 'endswith', 'count', 'keys', 'values', 'items', 'lower', 'upper', 'strip', 'lstrip',
+                 'rstrip', 'replace', 'split', 'isdigit', 'isalpha', 'format', 'copy', 'index', 'find', 'union', 'difference',
+                 'intersection', 'issubset', 'issuperset', 'isdisjoint'}
+_NEVER_NONE_METHODS = {'join', 'replace', 'strip', 'lstrip', 'rstrip', 'split', 'lower', 'upper', 'format', 'keys', 'values', 'items',
+                       'copy', 'union', 'difference', 'intersection', 'count'}
+
+
+def pure(node) -> bool:
+    """No call in the expression can have (or observe) a side effect: builtins and read-only str / dict / set methods only."""
+    for n in ast.walk(node):
+        if isinstance(n, ast.Call):
+            f = n.func
+            if isinstance(f, ast.Name) and f.id in _PURE_FUNCS:
                 continue
-            if v != truth:
+            if isinstance(f, ast.Attribute) and f.attr in _PURE_METHODS:
+                continue
+            return False
+        if isinstance(n, (ast.Await, ast.Yield, ast.YieldFrom, ast.NamedExpr)):
+            return False
+    return True
+
+
+def never_none(node) -> bool:
+    if isinstance(node, ast.Constant):
+        return node.value is not None
+    if isinstance(node, (ast.BinOp, ast.JoinedStr, ast.List, ast.Tuple, ast.Dict, ast.Set, ast.ListComp, ast.SetComp, ast.DictComp,
+                         ast.GeneratorExp, ast.Lambda, ast.Compare)):
+        return True
+    if isinstance(node, ast.Call):
+        f = node.func
+        if isinstance(f, ast.Name) and f.id in _PURE_FUNCS - {'getattr', 'min', 'max'}:
+            return True
+        if isinstance(f, ast.Attribute) and f.attr in _NEVER_NONE_METHODS:
+            return True
+    return False
+
+
+def _decide(node):
+    """Truth value of a branch test when it is evident from the expression alone, else None."""
+    if isinstance(node, ast.UnaryOp) and isinstance(node.op, ast.Not):
+        v = _decide(node.operand)
+        return None if v is None else (not v)
+    if isinstance(node, ast.Constant):
+        return bool(node.value)
+    if isinstance(node, ast.Compare) and len(node.ops) == 1:
+        l, r, op = node.left, node.comparators[0], node.ops[0]
+        if isinstance(l, ast.Constant) and isinstance(r, ast.Constant):
+            a, b = l.value, r.value
+            if isinstance(op, ast.Is):
+                return a is b
+            if isinstance(op, ast.IsNot):
+                return a is not b
+            if isinstance(op, ast.Eq):
+                return a == b
+            if isinstance(op, ast.NotEq):
+                return a != b
+            return None
+        if isinstance(op, (ast.Is, ast.IsNot)):
+            for x, y in ((l, r), (r, l)):
+                if isinstance(y, ast.Constant) and y.value is None and never_none(x):
+                    return isinstance(op, ast.IsNot)
+    return None
+
+
+def _trivially_infeasible(sp) -> bool:
+    """Decided without a solver: comparisons between literal constants (`None is not None` after substitution), `x is None`
+    for an expression that is never None (a concatenation, a literal, a str method), and the SAME side-effect-free test taken
+    both ways on one path (after substitution equal texts are equal values)."""
+    seen = {}
+    for node, truth in sp.conds:
+        v = _decide(node)
+        if v is not None and v != truth:
+            return True
+        if pure(node):
+            k = ast.dump(node)
+            if k in seen and seen[k] != truth:
                 return True
+            seen.setdefault(k, truth)
     return False
 
 
